@@ -203,19 +203,51 @@ Arguments take_from_source : simpl never.
 Arguments make_allotment : simpl never.
 Arguments allocate : simpl never.
 
-(* ---------- environments whose accounts satisfy P ---------- *)
-Definition env_accounts_ok (P : string -> Prop) (e : env) : Prop :=
-  forall x s, lookup e x = Some (VAccount s) -> P s.
+(* ---------- account expressions of a fragment evaluate to P-accounts ---------- *)
+Section Accs.
+Variable P : string -> Prop.
+Variable e : env.
 
-(* account expressions of a program fragment evaluate to P-accounts *)
-Definition acc_ok (P : string -> Prop) (e : env) (a : accexpr) : Prop := P (eval_acc e a).
+Fixpoint src_accs (s : source) : Prop :=
+  match s with
+  | SAccount a _ => P (eval_acc e a)
+  | SMaxed _ s' => src_accs s'
+  | SInOrder l => srcs_accs l
+  end
+with srcs_accs (l : sources) : Prop := match l with SNil => True | SCons s tl => src_accs s /\ srcs_accs tl end.
+
+Definition vsrc_accs (vs : vsource) : Prop :=
+  match vs with VSrc s => src_accs s | VSrcAllot l => Forall (fun ps => src_accs (snd ps)) l end.
+
+Fixpoint dest_accs (d : dest) : Prop :=
+  match d with
+  | DAccount a => P (eval_acc e a)
+  | DInOrder l r => dmaxes_accs l /\ kod_accs r
+  | DAllot l => dallots_accs l
+  end
+with kod_accs (k : kod) : Prop := match k with Kept => True | To d => dest_accs d end
+with dmaxes_accs (l : dmaxes) : Prop := match l with DMNil => True | DMCons _ k tl => kod_accs k /\ dmaxes_accs tl end
+with dallots_accs (l : dallots) : Prop := match l with DANil => True | DACons _ k tl => kod_accs k /\ dallots_accs tl end.
+
+Lemma fallback_accs :
+  (forall s, src_accs s -> forall fa, fallback_of s = Some fa -> P (eval_acc e fa)) /\
+  (forall l, srcs_accs l -> forall fa, fallbacks_of l = Some fa -> P (eval_acc e fa)).
+Proof.
+  apply source_mutind.
+  - intros a o Ha fa H. simpl in *. destruct o; [destruct (is_world a)| |]; inv H; assumption.
+  - intros m s _ _ fa H. discriminate.
+  - intros l IH Ha fa H. simpl in *. apply (IH Ha _ H).
+  - intros _ fa H. discriminate.
+  - intros s IHs l IHl [Hs Hl] fa H. simpl in H. destruct l; [apply (IHs Hs _ H)|apply (IHl Hl _ H)].
+Qed.
+End Accs.
 
 Section Sources.
 Variable P : string -> Prop.
 Variable e : env.
-Hypothesis Hacc : forall a, P (eval_acc e a).   (* discharged by check + validated variables, see acc_valid below *)
 
 Lemma take_max_fb_ok fb f ma mo b r b1 : take_max_fb e fb f ma mo b = Ok (r, b1) -> fok P f ->
+  (forall fa, fb = Some fa -> P (eval_acc e fa)) ->
   fok P r /\ fasset r = ma /\ (fb <> None -> forall x, mo = Some x -> total r = x) /\ total r <= oz mo /\ 0 <= oz mo.
 Proof.
   unfold take_max_fb. destruct mo as [x|]; [|discriminate].
@@ -223,12 +255,12 @@ Proof.
   destruct (negb (String.eqb (fasset f) ma)) eqn:Ea; [discriminate|]. apply negb_false_iff, String.eqb_eq in Ea.
   destruct (take_max x f) as [taken rem] eqn:Et.
   destruct (take_max_spec P _ _ _ _ Et) as [T1 [T2 [T3 [T4 T5]]]].
-  intros H Hok. specialize (T5 Hok Ex). destruct (T4 Hok) as [Hk1 Hk2].
+  intros H Hok Hfb. specialize (T5 Hok Ex). destruct (T4 Hok) as [Hk1 Hk2].
   assert (0 <= (if total f <? x then x - total f else 0)) as Hmiss.
   { destruct (total f <? x) eqn:E; [apply Z.ltb_lt in E|]; lia. }
   destruct fb as [fa|].
   - destruct (withdraw_always (repay b rem) (eval_acc e fa) ma (if total f <? x then x - total f else 0)) as [f2 b2] eqn:Ew.
-    destruct (withdraw_always_ok P _ _ _ _ _ _ Ew (Hacc fa) Hmiss) as [W1 [W2 W3]].
+    destruct (withdraw_always_ok P _ _ _ _ _ _ Ew (Hfb fa eq_refl) Hmiss) as [W1 [W2 W3]].
     dobind H r0 Er. inv H. destruct (assemble2 P _ _ _ Er) as [A1 [A2 [A3 A4]]].
     simpl. repeat split; try (apply A4; assumption); try congruence; try lia.
     all: try (intros _ y Hy; inv Hy; lia).
@@ -236,52 +268,54 @@ Proof.
 Qed.
 
 Lemma take_from_source_ok fb f ma x b r b1 : take_from_source e fb f ma (Some x) b = Ok (r, b1) -> fok P f ->
+  (forall fa, fb = Some fa -> P (eval_acc e fa)) ->
   fok P r /\ fasset r = ma /\ total r = x.
 Proof.
   unfold take_from_source. destruct fb as [fa|].
-  - intros H Hok. destruct (take_max_fb_ok _ _ _ _ _ _ _ H Hok) as [H1 [H2 [H3 _]]].
+  - intros H Hok Hfb. destruct (take_max_fb_ok _ _ _ _ _ _ _ H Hok Hfb) as [H1 [H2 [H3 _]]].
     repeat split; try assumption. apply H3; [discriminate|reflexivity].
   - destruct (negb (String.eqb (fasset f) ma)) eqn:Ea; [discriminate|]. apply negb_false_iff, String.eqb_eq in Ea.
-    intros H Hok. dobind H rr Et. destruct rr as [res rem]. inv H.
+    intros H Hok _. dobind H rr Et. destruct rr as [res rem]. inv H.
     destruct (take_spec _ _ _ _ Et) as [T1 [T2 [T3 T4]]]. destruct (take_ok P _ _ _ _ Et Hok) as [K1 K2].
     repeat split; try assumption; congruence.
 Qed.
 
 Lemma eval_source_ok :
-  (forall s A b f b1, eval_source e A s b = Ok (f, b1) -> fok P f) /\
-  (forall l A b fs b1, eval_sources e A l b = Ok (fs, b1) -> Forall (fok P) fs).
+  (forall s A b f b1, eval_source e A s b = Ok (f, b1) -> src_accs P e s -> fok P f) /\
+  (forall l A b fs b1, eval_sources e A l b = Ok (fs, b1) -> srcs_accs P e l -> Forall (fok P) fs).
 Proof.
   apply source_mutind.
-  - intros a o A b f b1 H. simpl in H. destruct o as [|m|].
+  - intros a o A b f b1 H Ha. simpl in H, Ha. destruct o as [|m|].
     + destruct (is_world a).
-      * inv H. constructor; [simpl; split; [apply Hacc|lia]|constructor].
-      * apply (withdraw_all_ok P _ _ _ _ _ _ H (Hacc a)).
-    + dobind H mm Em. destruct mm as [ma mo]. apply (withdraw_all_ok P _ _ _ _ _ _ H (Hacc a)).
-    + inv H. constructor; [simpl; split; [apply Hacc|lia]|constructor].
-  - intros m s IH A b f b1 H. simpl in H. dobind H fb Es. destruct fb as [f0 b0].
-    dobind H mm Em. destruct mm as [ma mo]. specialize (IH _ _ _ _ Es).
-    destruct (fallback_of s); apply (take_max_fb_ok _ _ _ _ _ _ _ H IH).
-  - intros l IH A b f b1 H. simpl in H. dobind H fb Es. destruct fb as [fs b0]. dobind H f0 Ea. inv H.
-    apply (assemble_spec P _ _ Ea). apply (IH _ _ _ _ Es).
-  - intros A b fs b1 H. simpl in H. inv H. constructor.
-  - intros s IHs l IHl A b fs b1 H. simpl in H. dobind H fb Es. destruct fb as [f0 b0].
-    dobind H gb El. destruct gb as [gs b2]. inv H. constructor; [apply (IHs _ _ _ _ Es)|apply (IHl _ _ _ _ El)].
+      * inv H. constructor; [simpl; split; [assumption|lia]|constructor].
+      * apply (withdraw_all_ok P _ _ _ _ _ _ H Ha).
+    + dobind H mm Em. destruct mm as [ma mo]. apply (withdraw_all_ok P _ _ _ _ _ _ H Ha).
+    + inv H. constructor; [simpl; split; [assumption|lia]|constructor].
+  - intros m s IH A b f b1 H Ha. simpl in H, Ha. dobind H fb Es. destruct fb as [f0 b0].
+    dobind H mm Em. destruct mm as [ma mo]. assert (src_accs P e s) as Ha' by exact Ha. specialize (IH _ _ _ _ Es Ha').
+    pose proof (proj1 (fallback_accs P e) _ Ha') as Hfb.
+    destruct (fallback_of s) as [fa|]; apply (take_max_fb_ok _ _ _ _ _ _ _ H IH); intros fa' Hq; inv Hq; apply Hfb; reflexivity.
+  - intros l IH A b f b1 H Ha. simpl in H, Ha. dobind H fb Es. destruct fb as [fs b0]. dobind H f0 Ea. inv H.
+    apply (assemble_spec P _ _ Ea). apply (IH _ _ _ _ Es). exact Ha.
+  - intros A b fs b1 H _. simpl in H. inv H. constructor.
+  - intros s IHs l IHl A b fs b1 H [Hs Hl]. simpl in H. dobind H fb Es. destruct fb as [f0 b0].
+    dobind H gb El. destruct gb as [gs b2]. inv H. constructor; [apply (IHs _ _ _ _ Es Hs)|apply (IHl _ _ _ _ El Hl)].
 Qed.
 
 Lemma eval_alloc_sources_ok A ma : forall l parts b fs b1,
-  eval_alloc_sources e A ma l parts b = Ok (fs, b1) ->
+  eval_alloc_sources e A ma l parts b = Ok (fs, b1) -> Forall (fun ps => src_accs P e (snd ps)) l ->
   Forall (fok P) fs /\ Forall (fun g => fasset g = ma) fs /\
   (List.length parts = List.length l -> fold_right (fun f s => total f + s) 0 fs = zsum parts).
 Proof.
-  induction l as [|[p s] tl IH]; intros parts b fs b1 H; simpl in H.
+  induction l as [|[p s] tl IH]; intros parts b fs b1 H Ha; simpl in H.
   - destruct parts; inv H; repeat split; try constructor; try (simpl; intros; try reflexivity; discriminate).
   - destruct parts as [|x ptl].
     + inv H. repeat split; try constructor; try (simpl; intros; discriminate).
     + dobind H fb Es. destruct fb as [f0 b0]. dobind H rb Et. destruct rb as [res b2].
-      dobind H gb El. destruct gb as [gs b3]. inv H.
-      pose proof (proj1 eval_source_ok _ _ _ _ _ Es) as Hf0.
-      destruct (take_from_source_ok _ _ _ _ _ _ _ Et Hf0) as [T1 [T2 T3]].
-      destruct (IH _ _ _ _ El) as [I1 [I2 I3]].
+      dobind H gb El. destruct gb as [gs b3]. inv H. inv Ha. simpl in H1.
+      pose proof (proj1 eval_source_ok _ _ _ _ _ Es H1) as Hf0.
+      destruct (take_from_source_ok _ _ _ _ _ _ _ Et Hf0 (proj1 (fallback_accs P e) _ H1)) as [T1 [T2 T3]].
+      destruct (IH _ _ _ _ El H2) as [I1 [I2 I3]].
       repeat split; try (constructor; assumption). simpl. intros Hl. rewrite I3 by lia. lia.
 Qed.
 
@@ -324,18 +358,19 @@ Proof. induction l; simpl; congruence. Qed.
 Section VSource.
 Variable P : string -> Prop.
 Variable e : env.
-Hypothesis Hacc : forall a, P (eval_acc e a).
 
 Lemma eval_vsource_ok te m vs b f b1 A x :
-  eval_vsource e m vs b = Ok (f, b1) -> eval_mon e m = Ok (A, Some x) -> chk_vsource te vs = true ->
+  eval_vsource e m vs b = Ok (f, b1) -> eval_mon e m = Ok (A, Some x) -> chk_vsource te vs = true -> vsrc_accs P e vs ->
   fok P f /\ fasset f = A /\ total f = x.
 Proof.
-  intros H Hm Hc. unfold eval_vsource in H. destruct vs as [s|l].
+  intros H Hm Hc Ha. unfold eval_vsource in H. destruct vs as [s|l]; simpl in Ha.
   - dobind H fb Es. destruct fb as [f0 b0]. rewrite Hm in H. simpl in H.
-    apply (take_from_source_ok P e Hacc _ _ _ _ _ _ _ H). apply (proj1 (eval_source_ok P e Hacc) _ _ _ _ _ Es).
+    apply (take_from_source_ok P e _ _ _ _ _ _ _ H).
+    + apply (proj1 (eval_source_ok P e) _ _ _ _ _ Es Ha).
+    + apply (proj1 (fallback_accs P e) _ Ha).
   - rewrite Hm in H. simpl in H. dobind H al Ea. dobind H fb Es. destruct fb as [fs b0]. dobind H f0 Ef. inv H.
     simpl in Hc. apply andb_prop in Hc. destruct Hc as [Hp _].
-    destruct (eval_alloc_sources_ok P e Hacc _ _ _ _ _ _ _ Es) as [S1 [S2 S3]].
+    destruct (eval_alloc_sources_ok P e _ _ _ _ _ _ _ Es Ha) as [S1 [S2 S3]].
     destruct (assemble_spec P _ _ Ef) as [A1 [A2 A3]].
     repeat split.
     + apply A3; assumption.
@@ -374,7 +409,6 @@ Section Dests.
 Variable P : string -> Prop.
 Variable e : env.
 Variable te : tenv.
-Hypothesis Hacc : forall a, P (eval_acc e a).
 
 (* what every posting of a destination looks like *)
 Definition posts_ok (A : string) (ps : list npost) : Prop :=
@@ -392,59 +426,59 @@ Definition dest_spec (f lf : funding) (ps : list npost) : Prop :=
   fok P lf /\ fasset lf = fasset f /\ post_sum ps + total lf = total f /\ posts_ok (fasset f) ps.
 
 Lemma eval_dest_ok :
-  (forall d f b lf b1 ps, eval_dest e d f b = Ok (lf, b1, ps) -> fok P f -> dest_spec f lf ps) /\
-  (forall k f b lf b1 ps, eval_kod e k f b = Ok (lf, b1, ps) -> fok P f -> dest_spec f lf ps) /\
-  (forall l f k b lf k1 b1 ps, eval_dmaxes e l f k b = Ok (lf, k1, b1, ps) -> fok P f ->
+  (forall d f b lf b1 ps, eval_dest e d f b = Ok (lf, b1, ps) -> fok P f -> dest_accs P e d -> dest_spec f lf ps) /\
+  (forall k f b lf b1 ps, eval_kod e k f b = Ok (lf, b1, ps) -> fok P f -> kod_accs P e k -> dest_spec f lf ps) /\
+  (forall l f k b lf k1 b1 ps, eval_dmaxes e l f k b = Ok (lf, k1, b1, ps) -> fok P f -> dmaxes_accs P e l ->
       dest_spec f lf ps /\ k <= k1) /\
-  (forall l parts f b lf b1 ps, eval_dallots e l parts f b = Ok (lf, b1, ps) -> fok P f -> dest_spec f lf ps).
+  (forall l parts f b lf b1 ps, eval_dallots e l parts f b = Ok (lf, b1, ps) -> fok P f -> dallots_accs P e l -> dest_spec f lf ps).
 Proof.
   apply dest_mutind; unfold dest_spec.
-  - (* DAccount *) intros a f b lf b1 ps H Hok. simpl in H. dobind H rr Et. destruct rr as [res rem].
+  - (* DAccount *) intros a f b lf b1 ps H Hok Ha. simpl in H. dobind H rr Et. destruct rr as [res rem].
     inv H.
     destruct (take_spec _ _ _ _ Et) as [T1 [T2 [T3 T4]]]. destruct (take_ok P _ _ _ _ Et Hok) as [K1 K2].
-    destruct (send_to_ok (eval_acc e a) res b _ _ eq_refl K1 (Hacc a)) as [S1 S2].
+    destruct (send_to_ok (eval_acc e a) res b _ _ eq_refl K1 Ha) as [S1 S2].
     repeat split; try assumption; [lia|rewrite <- T3; assumption].
-  - (* DInOrder *) intros l IHl r IHr f b lf b1 ps H Hok. simpl in H.
+  - (* DInOrder *) intros l IHl r IHr f b lf b1 ps H Hok [Ha1 Ha2]. simpl in H.
     dobind H x1 E1. destruct x1 as [[[f1 k] b2] ps1].
-    destruct (IHl _ _ _ _ _ _ _ E1 Hok) as [[L1 [L2 [L3 L4]]] _].
+    destruct (IHl _ _ _ _ _ _ _ E1 Hok Ha1) as [[L1 [L2 [L3 L4]]] _].
     destruct (freverse_spec P f1) as [R1 [R2 R3]].
     dobind H x2 E2. destruct x2 as [res rem].
     destruct (take_spec _ _ _ _ E2) as [T1 [T2 [T3 T4]]]. destruct (take_ok P _ _ _ _ E2 (R3 L1)) as [K1 K2].
     dobind H x3 E3. destruct x3 as [[lf3 b3] ps3].
     destruct (freverse_spec P rem) as [Q1 [Q2 Q3]]. destruct (freverse_spec P res) as [U1 [U2 U3]].
-    destruct (IHr _ _ _ _ _ E3 (Q3 K2)) as [M1 [M2 [M3 M4]]].
+    destruct (IHr _ _ _ _ _ E3 (Q3 K2) Ha2) as [M1 [M2 [M3 M4]]].
     dobind H out E4. inv H. destruct (assemble2 P _ _ _ E4) as [A1 [A2 [A3 A4]]].
     repeat split.
     + apply A4; [assumption|apply U3; assumption].
     + congruence.
     + rewrite post_sum_app. lia.
     + apply Forall_app. split; [assumption|]. replace (fasset f) with (fasset (freverse rem)) by congruence. assumption.
-  - (* DAllot *) intros l IHl f b lf b1 ps H Hok. simpl in H. dobind H al Ea. apply (IHl _ _ _ _ _ _ H Hok).
-  - (* Kept *) intros f b lf b1 ps H Hok. simpl in H. inv H. repeat split; try assumption; simpl; try lia. constructor.
-  - (* To *) intros d IH f b lf b1 ps H Hok. simpl in H. apply (IH _ _ _ _ _ H Hok).
-  - (* DMNil *) intros f k b lf k1 b1 ps H Hok. simpl in H. inv H. repeat split; try assumption; simpl; try lia. constructor.
-  - (* DMCons *) intros m kd IHk tl IHt f k b lf k1 b1 ps H Hok. simpl in H.
+  - (* DAllot *) intros l IHl f b lf b1 ps H Hok Ha. simpl in H. dobind H al Ea. apply (IHl _ _ _ _ _ _ H Hok Ha).
+  - (* Kept *) intros f b lf b1 ps H Hok _. simpl in H. inv H. repeat split; try assumption; simpl; try lia. constructor.
+  - (* To *) intros d IH f b lf b1 ps H Hok Ha. simpl in H. apply (IH _ _ _ _ _ H Hok Ha).
+  - (* DMNil *) intros f k b lf k1 b1 ps H Hok _. simpl in H. inv H. repeat split; try assumption; simpl; try lia. constructor.
+  - (* DMCons *) intros m kd IHk tl IHt f k b lf k1 b1 ps H Hok [Ha1 Ha2]. simpl in H.
     dobind H mm Em. destruct mm as [ma mo]. destruct mo as [x|]; [|discriminate].
     destruct (x <? 0) eqn:Ex; [discriminate|]. destruct (negb (String.eqb (fasset f) ma)); [discriminate|].
     destruct (take_max x f) as [taken rem] eqn:Et.
     destruct (take_max_spec P _ _ _ _ Et) as [T1 [T2 [T3 [T4 _]]]]. destruct (T4 Hok) as [K1 K2].
-    dobind H x1 E1. destruct x1 as [[lf1 b2] ps1]. destruct (IHk _ _ _ _ _ E1 K1) as [M1 [M2 [M3 M4]]].
+    dobind H x1 E1. destruct x1 as [[lf1 b2] ps1]. destruct (IHk _ _ _ _ _ E1 K1 Ha1) as [M1 [M2 [M3 M4]]].
     dobind H f1 E2. destruct (assemble2 P _ _ _ E2) as [A1 [A2 [A3 A4]]].
     dobind H x2 E3. destruct x2 as [[[f2 k2] b3] ps2]. inv H.
-    destruct (IHt _ _ _ _ _ _ _ E3 (A4 M1 K2)) as [[N1 [N2 [N3 N4]]] N5].
+    destruct (IHt _ _ _ _ _ _ _ E3 (A4 M1 K2) Ha2) as [[N1 [N2 [N3 N4]]] N5].
     pose proof (parts_ok_nonneg P _ M1) as Hn. unfold total in *.
     repeat split; try assumption; try congruence; try lia.
     + rewrite post_sum_app. lia.
     + apply Forall_app. split; [rewrite <- T2; assumption|]. replace (fasset f) with (fasset f1) by congruence. assumption.
-  - (* DANil *) intros parts f b lf b1 ps H Hok. simpl in H. inv H. repeat split; try assumption; simpl; try lia. constructor.
-  - (* DACons *) intros p kd IHk tl IHt parts f b lf b1 ps H Hok. simpl in H. destruct parts as [|x ptl].
+  - (* DANil *) intros parts f b lf b1 ps H Hok _. simpl in H. inv H. repeat split; try assumption; simpl; try lia. constructor.
+  - (* DACons *) intros p kd IHk tl IHt parts f b lf b1 ps H Hok [Ha1 Ha2]. simpl in H. destruct parts as [|x ptl].
     + inv H. repeat split; try assumption; simpl; try lia. constructor.
     + dobind H x0 E0. destruct x0 as [res rem].
       destruct (take_spec _ _ _ _ E0) as [T1 [T2 [T3 T4]]]. destruct (take_ok P _ _ _ _ E0 Hok) as [K1 K2].
-      dobind H x1 E1. destruct x1 as [[lf1 b2] ps1]. destruct (IHk _ _ _ _ _ E1 K1) as [M1 [M2 [M3 M4]]].
+      dobind H x1 E1. destruct x1 as [[lf1 b2] ps1]. destruct (IHk _ _ _ _ _ E1 K1 Ha1) as [M1 [M2 [M3 M4]]].
       dobind H f1 E2. destruct (assemble2 P _ _ _ E2) as [A1 [A2 [A3 A4]]].
       dobind H x2 E3. destruct x2 as [[f2 b3] ps2]. inv H.
-      destruct (IHt _ _ _ _ _ _ E3 (A4 M1 K2)) as [N1 [N2 [N3 N4]]].
+      destruct (IHt _ _ _ _ _ _ E3 (A4 M1 K2) Ha2) as [N1 [N2 [N3 N4]]].
       repeat split; try assumption; try congruence.
       * rewrite post_sum_app. lia.
       * apply Forall_app. split; [rewrite <- T3; assumption|]. replace (fasset f) with (fasset f1) by congruence. assumption.
@@ -452,42 +486,42 @@ Qed.
 
 (* without `kept` nothing is left over *)
 Lemma eval_dest_all_sent :
-  (forall d f b lf b1 ps, eval_dest e d f b = Ok (lf, b1, ps) -> fok P f -> chk_dest te d = true -> no_kept d = true -> total lf = 0) /\
-  (forall k f b lf b1 ps, eval_kod e k f b = Ok (lf, b1, ps) -> fok P f -> chk_kod te k = true -> no_kept_kod k = true -> total lf = 0) /\
-  (forall l f k b lf k1 b1 ps, eval_dmaxes e l f k b = Ok (lf, k1, b1, ps) -> fok P f -> chk_dmaxes te l = true ->
+  (forall d f b lf b1 ps, eval_dest e d f b = Ok (lf, b1, ps) -> fok P f -> dest_accs P e d -> chk_dest te d = true -> no_kept d = true -> total lf = 0) /\
+  (forall k f b lf b1 ps, eval_kod e k f b = Ok (lf, b1, ps) -> fok P f -> kod_accs P e k -> chk_kod te k = true -> no_kept_kod k = true -> total lf = 0) /\
+  (forall l f k b lf k1 b1 ps, eval_dmaxes e l f k b = Ok (lf, k1, b1, ps) -> fok P f -> dmaxes_accs P e l -> chk_dmaxes te l = true ->
       no_kept_dmaxes l = true -> k1 = k) /\
-  (forall l parts f b lf b1 ps, eval_dallots e l parts f b = Ok (lf, b1, ps) -> fok P f -> chk_dallots te l = true ->
+  (forall l parts f b lf b1 ps, eval_dallots e l parts f b = Ok (lf, b1, ps) -> fok P f -> dallots_accs P e l -> chk_dallots te l = true ->
       no_kept_dallots l = true -> List.length parts = dallots_len l -> total lf = total f - Allot.zsum parts).
 Proof.
   apply dest_mutind.
-  - intros a f b lf b1 ps H Hok _ _. simpl in H. dobind H rr Et. destruct rr as [res rem].
+  - intros a f b lf b1 ps H Hok _ _ _. simpl in H. dobind H rr Et. destruct rr as [res rem].
     inv H.
     destruct (take_spec _ _ _ _ Et) as [T1 [T2 _]]. lia.
-  - intros l IHl r IHr f b lf b1 ps H Hok Hc Hn. simpl in H, Hc, Hn.
+  - intros l IHl r IHr f b lf b1 ps H Hok [Ha1 Ha2] Hc Hn. simpl in H, Hc, Hn.
     destruct l as [|m0 k0 l0]; [discriminate|]. set (l := DMCons m0 k0 l0) in *.
     apply andb_prop in Hc. destruct Hc as [Hc1 Hc2]. apply andb_prop in Hn. destruct Hn as [Hn1 Hn2].
     dobind H x1 E1. destruct x1 as [[[f1 k] b2] ps1].
-    pose proof (IHl _ _ _ _ _ _ _ E1 Hok Hc1 Hn1) as Hk. subst k.
-    destruct (proj1 (proj2 (proj2 eval_dest_ok)) _ _ _ _ _ _ _ _ E1 Hok) as [[L1 _] _].
+    pose proof (IHl _ _ _ _ _ _ _ E1 Hok Ha1 Hc1 Hn1) as Hk. subst k.
+    destruct (proj1 (proj2 (proj2 eval_dest_ok)) _ _ _ _ _ _ _ _ E1 Hok Ha1) as [[L1 _] _].
     destruct (freverse_spec P f1) as [R1 [R2 R3]].
     dobind H x2 E2. destruct x2 as [res rem].
     destruct (take_spec _ _ _ _ E2) as [T1 [T2 [T3 T4]]]. destruct (take_ok P _ _ _ _ E2 (R3 L1)) as [K1 K2].
     dobind H x3 E3. destruct x3 as [[lf3 b3] ps3].
     destruct (freverse_spec P rem) as [Q1 [Q2 Q3]]. destruct (freverse_spec P res) as [U1 [U2 U3]].
-    pose proof (IHr _ _ _ _ _ E3 (Q3 K2) Hc2 Hn2) as Hz.
+    pose proof (IHr _ _ _ _ _ E3 (Q3 K2) Ha2 Hc2 Hn2) as Hz.
     dobind H out E4. inv H. destruct (assemble2 P _ _ _ E4) as [A1 _]. lia.
-  - intros l IHl f b lf b1 ps H Hok Hc Hn. simpl in H, Hc, Hn. apply andb_prop in Hc. destruct Hc as [Hp Hc].
+  - intros l IHl f b lf b1 ps H Hok Ha Hc Hn. simpl in H, Hc, Hn. apply andb_prop in Hc. destruct Hc as [Hp Hc].
     dobind H al Ea.
     assert (List.length al = dallots_len l) as Hlen.
     { unfold make_allotment in Ea. destruct (new_allotment (map (eval_portion e) (dallots_portions l))) as [|a] eqn:En; [discriminate|]. inv Ea.
       unfold new_allotment in En. destruct (Nat.ltb 1 _); [discriminate|]. destruct (Qlt_le_dec _ _); [discriminate|].
       inv En. rewrite !map_length. apply dallots_portions_len. }
-    rewrite (IHl _ _ _ _ _ _ H Hok Hc Hn) by (rewrite allocate_length; assumption).
+    rewrite (IHl _ _ _ _ _ _ H Hok Ha Hc Hn) by (rewrite allocate_length; assumption).
     rewrite allocate_sum by (apply (make_allotment_one te e _ _ Hp Ea)). lia.
-  - intros f b lf b1 ps H Hok _ Hn. discriminate.
-  - intros d IH f b lf b1 ps H Hok Hc Hn. simpl in *. apply (IH _ _ _ _ _ H Hok Hc Hn).
-  - intros f k b lf k1 b1 ps H _ _ _. simpl in H. inv H. reflexivity.
-  - intros m kd IHk tl IHt f k b lf k1 b1 ps H Hok Hc Hn. simpl in H, Hc, Hn.
+  - intros f b lf b1 ps H Hok _ _ Hn. discriminate.
+  - intros d IH f b lf b1 ps H Hok Ha Hc Hn. simpl in *. apply (IH _ _ _ _ _ H Hok Ha Hc Hn).
+  - intros f k b lf k1 b1 ps H _ _ _ _. simpl in H. inv H. reflexivity.
+  - intros m kd IHk tl IHt f k b lf k1 b1 ps H Hok [Ha1 Ha2] Hc Hn. simpl in H, Hc, Hn.
     apply andb_prop in Hc. destruct Hc as [Hc Hc3]. apply andb_prop in Hc. destruct Hc as [Hc1 Hc2].
     apply andb_prop in Hn. destruct Hn as [Hn1 Hn2].
     dobind H mm Em. destruct mm as [ma mo]. destruct mo as [x|]; [|discriminate].
@@ -495,31 +529,35 @@ Proof.
     destruct (take_max x f) as [taken rem] eqn:Et.
     destruct (take_max_spec P _ _ _ _ Et) as [T1 [T2 [T3 [T4 _]]]]. destruct (T4 Hok) as [K1 K2].
     dobind H x1 E1. destruct x1 as [[lf1 b2] ps1].
-    pose proof (IHk _ _ _ _ _ E1 K1 Hc2 Hn1) as Hz.
-    destruct (proj1 (proj2 eval_dest_ok) _ _ _ _ _ _ E1 K1) as [M1 _].
+    pose proof (IHk _ _ _ _ _ E1 K1 Ha1 Hc2 Hn1) as Hz.
+    destruct (proj1 (proj2 eval_dest_ok) _ _ _ _ _ _ E1 K1 Ha1) as [M1 _].
     dobind H f1 E2. destruct (assemble2 P _ _ _ E2) as [A1 [A2 [A3 A4]]].
     dobind H x2 E3. destruct x2 as [[[f2 k2] b3] ps2]. inv H.
-    rewrite (IHt _ _ _ _ _ _ _ E3 (A4 M1 K2) Hc3 Hn2). lia.
-  - intros parts f b lf b1 ps H _ _ _ Hl. simpl in H, Hl. inv H. destruct parts; [simpl; lia|discriminate].
-  - intros p kd IHk tl IHt parts f b lf b1 ps H Hok Hc Hn Hl. simpl in H, Hc, Hn, Hl.
+    rewrite (IHt _ _ _ _ _ _ _ E3 (A4 M1 K2) Ha2 Hc3 Hn2). lia.
+  - intros parts f b lf b1 ps H _ _ _ _ Hl. simpl in H, Hl. inv H. destruct parts; [simpl; lia|discriminate].
+  - intros p kd IHk tl IHt parts f b lf b1 ps H Hok [Ha1 Ha2] Hc Hn Hl. simpl in H, Hc, Hn, Hl.
     apply andb_prop in Hc. destruct Hc as [Hc1 Hc2]. apply andb_prop in Hn. destruct Hn as [Hn1 Hn2].
     destruct parts as [|x ptl]; [discriminate|]. simpl in Hl.
     dobind H x0 E0. destruct x0 as [res rem].
     destruct (take_spec _ _ _ _ E0) as [T1 [T2 [T3 T4]]]. destruct (take_ok P _ _ _ _ E0 Hok) as [K1 K2].
     dobind H x1 E1. destruct x1 as [[lf1 b2] ps1].
-    pose proof (IHk _ _ _ _ _ E1 K1 Hc1 Hn1) as Hz.
-    destruct (proj1 (proj2 eval_dest_ok) _ _ _ _ _ _ E1 K1) as [M1 _].
+    pose proof (IHk _ _ _ _ _ E1 K1 Ha1 Hc1 Hn1) as Hz.
+    destruct (proj1 (proj2 eval_dest_ok) _ _ _ _ _ _ E1 K1 Ha1) as [M1 _].
     dobind H f1 E2. destruct (assemble2 P _ _ _ E2) as [A1 [A2 [A3 A4]]].
     dobind H x2 E3. destruct x2 as [[f2 b3] ps2]. inv H.
-    rewrite (IHt _ _ _ _ _ _ E3 (A4 M1 K2) Hc2 Hn2) by lia. simpl. lia.
+    rewrite (IHt _ _ _ _ _ _ E3 (A4 M1 K2) Ha2 Hc2 Hn2) by lia. simpl. lia.
 Qed.
 
 End Dests.
 
-(* ====================================================================== statement level (C22) *)
+(* ====================================================================== statement level (C22, C28) *)
 Definition anyacc : string -> Prop := fun _ => True.
-Lemma anyacc_ok e : forall a : accexpr, anyacc (eval_acc e a).
-Proof. intros; exact I. Qed.
+
+Lemma src_accs_any e : (forall s, src_accs anyacc e s) /\ (forall l, srcs_accs anyacc e l).
+Proof. apply source_mutind; simpl; intros; try exact I; try assumption; split; assumption. Qed.
+Lemma dest_accs_any e :
+  (forall d, dest_accs anyacc e d) /\ (forall k, kod_accs anyacc e k) /\ (forall l, dmaxes_accs anyacc e l) /\ (forall l, dallots_accs anyacc e l).
+Proof. apply dest_mutind; simpl; intros; try exact I; try assumption; split; assumption. Qed.
 
 Lemma posts_ok_sum P A ps : posts_ok P A ps -> 0 <= post_sum ps.
 Proof. induction 1 as [|p ps [_ [Hp _]] _ IH]; simpl; lia. Qed.
@@ -534,49 +572,42 @@ Proof.
   - dobind H mm Em. destruct mm as [ma mo]. dobind H al Ea. destruct mo as [x|]; [exists ma, x; reflexivity|discriminate].
 Qed.
 
-Definition send_post_spec (A : string) (x : Z) (ps : list npost) : Prop :=
-  Forall (fun p => passet p = A /\ 0 <= pamt p) ps /\ 0 <= post_sum ps <= x.
+(* every posting: asset A, non-negative amount, source and destination satisfying P; the sum is between 0 and x *)
+Definition send_post_spec (P : string -> Prop) (A : string) (x : Z) (ps : list npost) : Prop :=
+  posts_ok P A ps /\ 0 <= post_sum ps <= x.
 
-Theorem exec_send_spec te e m vs d b b' ps :
-  exec_send e m vs d b = Ok (b', ps) -> chk_vsource te vs = true ->
-  exists A x, eval_mon e m = Ok (A, Some x) /\ send_post_spec A x ps /\
+Theorem exec_send_spec P te e m vs d b b' ps :
+  exec_send e m vs d b = Ok (b', ps) -> chk_vsource te vs = true -> vsrc_accs P e vs -> dest_accs P e d ->
+  exists A x, eval_mon e m = Ok (A, Some x) /\ send_post_spec P A x ps /\
               (chk_dest te d = true -> no_kept d = true -> post_sum ps = x).
 Proof.
-  unfold exec_send. intros H Hc. dobind H fb Ev. destruct fb as [f b1].
+  unfold exec_send. intros H Hc Hs Hd. dobind H fb Ev. destruct fb as [f b1].
   destruct (eval_vsource_amount _ _ _ _ _ _ Ev) as [A [x Hm]]. exists A, x. split; [assumption|].
-  destruct (eval_vsource_ok anyacc e (anyacc_ok e) te _ _ _ _ _ _ _ Ev Hm Hc) as [F1 [F2 F3]].
+  destruct (eval_vsource_ok P e te _ _ _ _ _ _ _ Ev Hm Hc Hs) as [F1 [F2 F3]].
   dobind H x1 Ed. destruct x1 as [[lf b2] ps1]. inv H.
-  destruct (proj1 (eval_dest_ok anyacc e (anyacc_ok e)) _ _ _ _ _ _ Ed F1) as [D1 [D2 [D3 D4]]].
-  pose proof (parts_ok_nonneg _ _ D1) as Hl. pose proof (posts_ok_sum _ _ _ D4) as Hs. unfold total in *.
+  destruct (proj1 (eval_dest_ok P e) _ _ _ _ _ _ Ed F1 Hd) as [D1 [D2 [D3 D4]]].
+  pose proof (parts_ok_nonneg _ _ D1) as Hl. pose proof (posts_ok_sum _ _ _ D4) as Hsum. unfold total in *.
   split; [split|].
-  - eapply Forall_impl; [|exact D4]. simpl. intros p [Hp1 [Hp2 _]]. split; [congruence|assumption].
+  - first [assumption | rewrite <- F2; assumption | rewrite F2 in D4; assumption].
   - lia.
-  - intros Hcd Hnk. pose proof (proj1 (eval_dest_all_sent anyacc e te (anyacc_ok e)) _ _ _ _ _ _ Ed F1 Hcd Hnk) as Hz.
+  - intros Hcd Hnk. pose proof (proj1 (eval_dest_all_sent P e te) _ _ _ _ _ _ Ed F1 Hd Hcd Hnk) as Hz.
     unfold total in Hz. lia.
 Qed.
 
 (* sources without an `allowing overdraft up to` clause produce fundings in the asset of the statement *)
-Fixpoint src_plain (s : source) : bool :=
-  match s with
-  | SAccount _ (OdUpTo _) => false
-  | SAccount _ _ => true
-  | SMaxed _ s' => src_plain s'
-  | SInOrder l => srcs_plain l
-  end
-with srcs_plain (l : sources) : bool := match l with SNil => true | SCons s tl => src_plain s && srcs_plain tl end.
-
 Lemma eval_source_asset e A :
   (forall s b f b1, eval_source e A s b = Ok (f, b1) -> src_plain s = true -> fasset f = A) /\
   (forall l b fs b1, eval_sources e A l b = Ok (fs, b1) -> srcs_plain l = true -> Forall (fun g => fasset g = A) fs).
 Proof.
+  pose proof (proj1 (src_accs_any e)) as Hany.
   apply source_mutind.
   - intros a o b f b1 H Hp. simpl in H. destruct o as [|m|]; [|discriminate|].
     + destruct (is_world a); [inv H; reflexivity|]. apply (withdraw_all_ok anyacc _ _ _ _ _ _ H I).
     + inv H. reflexivity.
   - intros m s IH b f b1 H Hp. simpl in H, Hp. dobind H fb Es. destruct fb as [f0 b0].
     dobind H mm Em. destruct mm as [ma mo]. specialize (IH _ _ _ Es Hp).
-    pose proof (proj1 (eval_source_ok anyacc e (anyacc_ok e)) _ _ _ _ _ Es) as Hok.
-    assert (fasset f = ma) as Hf by (destruct (fallback_of s); apply (take_max_fb_ok anyacc e (anyacc_ok e) _ _ _ _ _ _ _ H Hok)).
+    pose proof (proj1 (eval_source_ok anyacc e) _ _ _ _ _ Es (Hany s)) as Hok.
+    assert (fasset f = ma) as Hf by (destruct (fallback_of s); apply (take_max_fb_ok anyacc e _ _ _ _ _ _ _ H Hok); intros; exact I).
     unfold take_max_fb in H. destruct mo as [x|]; [|destruct (fallback_of s); discriminate].
     destruct (fallback_of s); destruct (x <? 0); try discriminate;
       destruct (negb (String.eqb (fasset f0) ma)) eqn:Ea; try discriminate;
@@ -590,76 +621,31 @@ Proof.
     constructor; [apply (IHs _ _ _ Es Hp1)|apply (IHl _ _ _ El Hp2)].
 Qed.
 
-Theorem exec_send_all_spec te e a s d b b' ps :
-  exec_send_all e a s d b = Ok (b', ps) ->
-  exists f b1, eval_source e (eval_asset e a) s b = Ok (f, b1) /\ 0 <= total f /\
-               send_post_spec (fasset f) (total f) ps /\
-               (chk_dest te d = true -> no_kept d = true -> post_sum ps = total f) /\
-               (src_plain s = true -> fasset f = eval_asset e a).
+Theorem exec_send_all_spec P te e a s d b b' ps :
+  exec_send_all e a s d b = Ok (b', ps) -> src_accs P e s -> dest_accs P e d ->
+  exists f b1, eval_source e (eval_asset e a) s b = Ok (f, b1) /\ 0 <= total f /\ fasset f = eval_asset e a /\
+               send_post_spec P (eval_asset e a) (total f) ps /\
+               (chk_dest te d = true -> no_kept d = true -> post_sum ps = total f).
 Proof.
-  unfold exec_send_all. intros H. dobind H fb Es. destruct fb as [f b1]. exists f, b1. split; [reflexivity|].
-  pose proof (proj1 (eval_source_ok anyacc e (anyacc_ok e)) _ _ _ _ _ Es) as F1.
+  unfold exec_send_all. intros H Hs Hd. dobind H fb Es. destruct fb as [f b1]. exists f, b1. split; [reflexivity|].
+  pose proof (proj1 (eval_source_ok P e) _ _ _ _ _ Es Hs) as F1.
+  assert (fasset f = eval_asset e a) as HA.
+  { destruct (src_plain s) eqn:Ep; [apply (proj1 (eval_source_asset e _) _ _ _ _ Es Ep)|].
+    simpl in H. destruct (String.eqb (fasset f) (eval_asset e a)) eqn:Eq; [apply String.eqb_eq; assumption|discriminate]. }
+  destruct (negb (src_plain s) && negb (String.eqb (fasset f) (eval_asset e a))); [discriminate|].
   dobind H x1 Ed. destruct x1 as [[lf b2] ps1]. inv H.
-  destruct (proj1 (eval_dest_ok anyacc e (anyacc_ok e)) _ _ _ _ _ _ Ed F1) as [D1 [D2 [D3 D4]]].
+  destruct (proj1 (eval_dest_ok P e) _ _ _ _ _ _ Ed F1 Hd) as [D1 [D2 [D3 D4]]].
   pose proof (parts_ok_nonneg _ _ D1) as Hl. pose proof (parts_ok_nonneg _ _ F1) as Hf.
-  pose proof (posts_ok_sum _ _ _ D4) as Hs. unfold total in *.
-  repeat split; try lia.
-  - eapply Forall_impl; [|exact D4]. simpl. intros p [Hp1 [Hp2 _]]. split; assumption.
-  - intros Hcd Hnk. pose proof (proj1 (eval_dest_all_sent anyacc e te (anyacc_ok e)) _ _ _ _ _ _ Ed F1 Hcd Hnk) as Hz.
+  pose proof (posts_ok_sum _ _ _ D4) as Hsum. unfold total in *.
+  repeat split; try lia; try assumption.
+  - first [assumption | rewrite <- HA; assumption | rewrite HA in D4; assumption].
+  - intros Hcd Hnk. pose proof (proj1 (eval_dest_all_sent P e te) _ _ _ _ _ _ Ed F1 Hd Hcd Hnk) as Hz.
     unfold total in Hz. lia.
-  - intros Hp. apply (proj1 (eval_source_asset e _) _ _ _ _ Es Hp).
-Qed.
-
-(* ---------- program level: the i-th posting list is what the i-th statement produced ---------- *)
-Definition stmt_posts (e : env) (s : stmt) (ps : list npost) : Prop :=
-  match s with
-  | Send m vs d => exists b b', exec_send e m vs d b = Ok (b', ps)
-  | SendAll a src d => exists b b', exec_send_all e a src d b = Ok (b', ps)
-  | _ => ps = []
-  end.
-
-Lemma exec_stmt_posts e s ms ms1 : exec_stmt e s ms = Ok ms1 -> exists ps, mposts ms1 = mposts ms ++ [ps] /\ stmt_posts e s ps.
-Proof.
-  destruct s; simpl; intros H.
-  - dobind H x E. destruct x as [b ps]. inv H. exists ps. split; [reflexivity|]. exists (mbal ms), b. assumption.
-  - dobind H x E. destruct x as [b ps]. inv H. exists ps. split; [reflexivity|]. exists (mbal ms), b. assumption.
-  - dobind H x E. inv H. exists []. split; reflexivity.
-  - dobind H x E. inv H. exists []. split; reflexivity.
-  - destruct (leaf_value e m). inv H. exists []. split; reflexivity.
-  - inv H. exists []. split; reflexivity.
-  - discriminate.
-Qed.
-
-Lemma exec_stmts_posts e l : forall ms ms1, exec_stmts e l ms = Ok ms1 ->
-  exists L, mposts ms1 = mposts ms ++ L /\ Forall2 (stmt_posts e) l L.
-Proof.
-  induction l as [|s tl IH]; intros ms ms1 H; simpl in H.
-  - inv H. exists []. split; [rewrite app_nil_r; reflexivity|constructor].
-  - dobind H ms0 E. destruct (exec_stmt_posts _ _ _ _ E) as [ps [H1 H2]].
-    destruct (IH _ _ H) as [L [H3 H4]]. exists (ps :: L). split; [|constructor; assumption].
-    rewrite H3, H1, <- app_assoc. reflexivity.
-Qed.
-
-(* the environment a successful run executes its statements in *)
-Lemma run_posts p given s r : run p given s = Ok r ->
-  check p = true /\ exists e, Forall2 (stmt_posts e) (pstmts p) (rposts r).
-Proof.
-  unfold run. destruct (check p) eqn:Ec; [|discriminate]. simpl.
-  destruct (negb _); [discriminate|]. intros H.
-  dobind H x0 E0. destruct x0 as [e0 bv]. dobind H x1 E1. destruct x1 as [e b0]. dobind H ms E2. inv H. simpl.
-  split; [reflexivity|]. exists e. destruct (exec_stmts_posts _ _ _ _ E2) as [L [H1 H2]]. simpl in H1. subst. assumption.
 Qed.
 
 Lemma Forall2_strengthen {A B} (R S : A -> B -> Prop) (Q : A -> Prop) l L :
   Forall2 R l L -> Forall Q l -> (forall a b, Q a -> R a b -> S a b) -> Forall2 S l L.
 Proof. induction 1; intros HQ HS; [constructor|]. inv HQ. constructor; auto. Qed.
-
-Lemma check_stmts p : check p = true -> exists te, Forall (fun s => chk_stmt te s = true) (pstmts p).
-Proof.
-  unfold check. destruct (pstmts p) as [|s0 l0] eqn:E; [discriminate|].
-  destruct (chk_vars [] (pvars p)) as [te|]; [|discriminate]. intros H. exists te. apply Forall_forall.
-  rewrite forallb_forall in H. assumption.
-Qed.
 
 Lemma eval_mon_asset e m : forall A o, eval_mon e m = Ok (A, o) -> A = mon_asset e m.
 Proof.
@@ -670,35 +656,6 @@ Proof.
     destruct (String.eqb la ra); [|discriminate]. inv H. apply (IHl _ _ eq_refl).
   - dobind H x1 E1. destruct x1 as [la lo]. dobind H x2 E2. destruct x2 as [ra ro].
     destruct (String.eqb la ra); [|discriminate]. inv H. apply (IHl _ _ eq_refl).
-Qed.
-
-(* what a successful run guarantees for its i-th statement and the i-th posting list *)
-Definition stmt_guarantee (e : env) (s : stmt) (ps : list npost) : Prop :=
-  match s with
-  | Send m vs d =>
-      exists A x, eval_mon e m = Ok (A, Some x) /\ A = mon_asset e m /\ send_post_spec A x ps /\
-                  (no_kept d = true -> post_sum ps = x)
-  | SendAll a src d =>
-      exists f b b1, eval_source e (eval_asset e a) src b = Ok (f, b1) /\ 0 <= total f /\
-                     send_post_spec (fasset f) (total f) ps /\
-                     (no_kept d = true -> post_sum ps = total f) /\
-                     (src_plain src = true -> fasset f = eval_asset e a)
-  | _ => ps = []
-  end.
-
-Theorem run_guarantee p given s r : run p given s = Ok r ->
-  exists e, Forall2 (stmt_guarantee e) (pstmts p) (rposts r).
-Proof.
-  intros H. destruct (run_posts _ _ _ _ H) as [Hc [e HF]]. exists e.
-  destruct (check_stmts _ Hc) as [te Hte].
-  eapply Forall2_strengthen; [exact HF|exact Hte|]. clear. intros st ps Hchk Hp.
-  destruct st; simpl in *; try assumption.
-  - destruct Hp as [b [b' Hx]]. apply andb_prop in Hchk. destruct Hchk as [Hchk Hd]. apply andb_prop in Hchk. destruct Hchk as [_ Hv].
-    destruct (exec_send_spec te _ _ _ _ _ _ _ Hx Hv) as [A [x [H1 [H2 H3]]]].
-    exists A, x. repeat split; try assumption; try apply H2. apply (eval_mon_asset _ _ _ _ H1). intros Hk. apply H3; assumption.
-  - destruct Hp as [b [b' Hx]]. apply andb_prop in Hchk. destruct Hchk as [_ Hd].
-    destruct (exec_send_all_spec te _ _ _ _ _ _ _ Hx) as [f [b1 [H1 [H2 [H3 [H4 H5]]]]]].
-    exists f, b, b1. repeat split; try assumption; try apply H3. intros Hk. apply H4; assumption.
 Qed.
 
 (* C26: dropping zero-amount postings (the documented difference of the interpreter) changes no sum and no balance *)
@@ -718,17 +675,5 @@ Proof.
   apply Z.eqb_eq in E. rewrite E. destruct (String.eqb (passet p) asset), (String.eqb (pdst p) acc), (String.eqb (psrc p) acc); lia.
 Qed.
 
-(* C28 helpers *)
-Lemma literal_statement_asset e m s n : leftmost m = MonLit (AssetLit s) n -> mon_asset e m = s.
-Proof. unfold mon_asset, leaf_value. intros ->. reflexivity. Qed.
-
-Lemma set_vars_valid decls given : set_vars decls given = true ->
-  forall d, In d decls -> vorigin d = ONone ->
-  exists v, lookup given (vname d) = Some v /\ ty_of v = ty_of v /\ validate_value v = true.
-Proof.
-  induction decls as [|d0 tl IH]; intros H d Hin Ho; [inv Hin|]. simpl in H. destruct Hin as [->|Hin].
-  - rewrite Ho in H. destruct (lookup given (vname d)) as [v|]; [|discriminate].
-    apply andb_prop in H. destruct H as [H _]. apply andb_prop in H. destruct H as [_ Hv]. exists v. auto.
-  - destruct (vorigin d0); [destruct (lookup given (vname d0)); [|discriminate]; apply andb_prop in H; destruct H as [_ H]| |];
-      apply (IH H _ Hin Ho).
-Qed.
+Lemma effect_app acc asset a b : effect acc asset (a ++ b) = effect acc asset a + effect acc asset b.
+Proof. induction a; simpl; lia. Qed.
